@@ -129,7 +129,7 @@ func legSem(c *Ctx, rtl bool) {
 					Key: fmt.Sprintf("%s|%s|%s|%d", pat, o, string(in), start), Class: fmt.Sprintf("match=%v", m != nil)})
 				if real != nil && k%3 == 0 {
 					inB := append(append(encEnv(in, start, o, real.Sets, real.Slots), real.Words...), tail...)
-					c.Add(&Case{Desc: "[real-tree] " + desc, ModelLeg: 101, ModelIn: inB, ImplOut: impl, Class: "real-tree"})
+					c.Add(&Case{Desc: "[real-tree] " + desc, ModelLeg: 103, ModelIn: inB, ImplOut: impl, Class: "real-tree"})
 				}
 				k++
 			}
